@@ -12,6 +12,15 @@ CHECKS = {
     "C05": dict(level="model_checking", ref="5 (C05), 4.1",
                 technique="TLC model checking of TheoVM.tla (complete debugger state graph, ghost reference machine) + S->I replay of all bounded histories + I->S trace validation (TheoVMTrace.tla)",
                 text="Transparent and BrkSync are TLC invariants on the complete state graph (all histories of any length) of the real compiler's bytecode for the corpus programs; every API history of length 3 (thorough 4) is replayed into the real VM with ip, break opcodes, data and variable views compared after every call; seeded random histories of the real VM are validated event by event against the specification."),
+    "C06": dict(level="model_checking", ref="5 (C06), 4.1",
+                technique="TLC model checking of TheoVM.tla (StopExact over the site table, enable/disable algebra) + S->I replay of all bounded histories + I->S trace validation",
+                text="StopExact, StartNone and BrkSync are TLC invariants on the complete debugger state graph of the real bytecode; every history of length 3 (thorough 4) - including enable requests for an unavailable location - is replayed into the real VM comparing return values, current location, done flag, enabled set and ip after every call; random real histories are validated against the specification with those fields bound."),
+    "C17": dict(level="model_checking", ref="5 (C17), 4.1",
+                technique="TLC model checking of TheoVM.tla (action properties ResetIsInit, DoneAbsorbing) + S->I replay + I->S trace validation with reset-heavy histories",
+                text="ResetIsInit (reset's post-state equals the initial state, including every break opcode, and the ghost reference machine restarts) and DoneAbsorbing are TLC action properties on the complete state graph; S->I replays every bounded history with all observable fields compared (so behaviour after a reset is compared with the specification's fresh machine); reset-heavy random histories of the real VM are validated with all fields bound."),
+    "C19": dict(level="model_checking", ref="5 (C19), 4.1",
+                technique="TLC model checking of TheoVM.tla (FramesExact) + S->I replay + I->S trace validation with frame geometry bound through the THEO_VERIF hooks",
+                text="FramesExact (data = exactly the live frames, contiguous, in call order) is a TLC invariant on the complete state graph, i.e. at every instruction boundary of every history; the real VM's word count and every activation's base/size are compared after every call in S->I and bound in I->S traces."),
 }
 
 NOT_YET = "check not built yet in this session (construction order in DESIGN.md section 10); will be claimed when its check exists"
